@@ -706,3 +706,20 @@ func (w *World) FinishPod(key client.ObjectKey) {
 		_ = w.Client.Update(w.Ctx, p)
 	})
 }
+
+// Remove deletes an object for good (finalizers stripped), bypassing logging.
+func (w *World) Remove(o client.Object) {
+	w.quiet(func() {
+		cur := o.DeepCopyObject().(client.Object)
+		if err := w.Client.Get(w.Ctx, client.ObjectKeyFromObject(o), cur); err != nil {
+			return
+		}
+		if len(cur.GetFinalizers()) > 0 {
+			cur.SetFinalizers(nil)
+			if err := w.Client.Update(w.Ctx, cur); err != nil {
+				return
+			}
+		}
+		_ = w.Client.Delete(w.Ctx, cur)
+	})
+}
